@@ -247,6 +247,50 @@ void giantCase(Ctx& ctx)
 	ctx.state(); ctx.trace();
 }
 
+// (2b'') files at scale: a map of the size the game ships (131072 tiles, i.e. more than one 64 Ki block of tile data) and a map with
+// 1500 tile groups - accepted with exactly the reference content, and cut at a handful of places inside the consumed portion
+void scaleCase(Ctx& ctx, int which, bool saved)
+{
+	std::vector<int> z(mapc::kDims, 0);
+	ref::RMap m = mapc::makeMap(z);
+	std::string what;
+	if (which == 0) { m.lgWidth = 9; m.height = 256; m.fillTiles(0); what = "512 x 256 map"; }
+	else {
+		m.groups.clear();
+		for (int g = 0; g < 1500; ++g) { ref::RGroup G; G.w = 1 + uint32_t(g % 2); G.h = 1; G.name = "g" + std::to_string(g); for (uint32_t i = 0; i < G.w * G.h; ++i) G.idx.push_back(uint32_t(g) + i); m.groups.push_back(G); }
+		m.undocumented = uint32_t(m.groups.size() - 1);
+		what = "32 x 2 map with 1500 tile groups";
+	}
+	std::size_t consumed = 0;
+	std::vector<uint8_t> b = saved ? ref::encodeSavedGame(m, ref::RSavedUnits()) : ref::encodeMap(m, nullptr, &consumed);
+	std::size_t n = b.size();
+	std::string key = std::string(saved ? "saved game: " : "map: ") + what + " (" + std::to_string(n) + " bytes)";
+	ctx.sub(key);
+	std::unique_ptr<uint8_t[]> buf(new uint8_t[n]);
+	std::memcpy(buf.get(), b.data(), n);
+	SeedDef sd; sd.saved = saved;
+	Map mm;
+	auto o = parse(sd, buf.get(), n, mm);
+	ctx.transition();
+	if (o.cls != 'R') { ctx.violation("C07/scale/valid-file-rejected", key, o.what); return; }
+	std::string d = mapc::compare(mm, m, !saved);
+	if (!d.empty()) { ctx.violation("C07/scale/returned-map-differs-from-the-file", key, d); return; }
+	mm = Map();
+	std::set<std::size_t> cuts = { n - 1, n - 2, n - 9, n / 2, n / 3, (n / 4) * 3, n - n / 5, n - n / 20 };
+	if (which == 0) { std::size_t tilesAt = n - 4 * 131072 - 2000; for (std::size_t k : { std::size_t(65536), std::size_t(65537), std::size_t(131071) }) cuts.insert(std::min(n - 1, tilesAt + 4 * k)); }
+	for (std::size_t c : cuts) {
+		std::unique_ptr<uint8_t[]> pre(new uint8_t[c ? c : 1]);
+		std::memcpy(pre.get(), b.data(), c);
+		Map pm;
+		auto op = parse(sd, pre.get(), c, pm);
+		ctx.transition();
+		if (op.cls == 'R') { ctx.violation("C07/scale/proper-prefix-accepted", key + " cut to " + std::to_string(c) + " bytes", "returned " + std::to_string(pm.tiles.size()) + " tiles, " + std::to_string(pm.tileGroups.size()) + " groups"); return; }
+		if (op.cls == 'X') { ctx.violation("C07/scale/non-std-exception", key, ""); return; }
+	}
+	ctx.count("scale/files");
+	ctx.state(); ctx.trace();
+}
+
 // (2c) saved games whose unit table really has records of the size the sizeOfUnit field names (with no units the field
 // is not pinned to 120), followed by plenty of data: a reader that trusts the field for the fixed unit table writes
 // outside it (ASan); every outcome must be an ordinary error or a map
@@ -358,6 +402,7 @@ void build(Ctx& ctx)
 	gCases.push_back({ 4, 0, 1, 0 });
 	gCases.push_back({ 5, 0, 0, 0 });
 	if (ctx.thorough) gCases.push_back({ 7, 0, 0, 0 });
+	for (std::size_t w = 0; w < 2; ++w) for (std::size_t sv = 0; sv < 2; ++sv) gCases.push_back({ 8, 0, w, sv });
 	for (std::size_t p = 0; p < 8; ++p) gCases.push_back({ 3, 0, p, 8 });
 }
 
@@ -371,6 +416,7 @@ void runCase(std::size_t i, Ctx& ctx)
 	case 4: wrapGridCase(ctx, c.from != 0); break;
 	case 5: unitSizeCase(ctx); break;
 	case 7: giantCase(ctx); break;
+	case 8: scaleCase(ctx, int(c.from), c.to != 0); break;
 	case 6: filePrefixCase(ctx, gSeeds[c.seed]); break;
 	default: equivalenceCase(ctx, c.from, c.to);
 	}
